@@ -1094,20 +1094,25 @@ theorem crcBytes_spec (body : Bytes) (h : Bytes.WF body) :
     simpa [crcBytes] using this
   · simp [crcBytes, Spec.le32]
 
+/-- the byte layout shared by the three constructors (legacy ones: empty root list). -/
+def layoutBody (M RL IDX CD : Bytes) (b4 off size n nr : Nat) : Bytes :=
+  M ++ [b4] ++ [off] ++ (natToBE size n ++ natToBE size nr ++ natToBE size 0 ++ natToBE off CD.length) ++ RL ++ IDX ++ CD
+
 theorem header_of_layout (M RL IDX CD : Bytes) (b4 off size n nr : Nat) (fl : Flags)
     (hM : M.length = 4) (hMwf : Bytes.WF M) (hfl : ∀ r, readFlags (M ++ b4 :: r) = some fl) (hsz : fl.sizeBytes = size)
     (hs1 : 1 ≤ size) (hn : n < 256 ^ size) (hnr : nr < 256 ^ size) (htot : CD.length < 256 ^ off) (hoff : off ≠ 0)
     (hb4 : b4 < 256) (hoff8 : off < 256)
     (hRL : RL.length = if fl.generic then nr * size else 0) (hleg : fl.generic = false → nr = 1)
     (hIDX : IDX.length = if fl.hasIdx then n * off else 0)
-    (wRL : Bytes.WF RL) (wIDX : Bytes.WF IDX) (wCD : Bytes.WF CD) :
-    let body := M ++ [b4] ++ [off] ++ (natToBE size n ++ natToBE size nr ++ natToBE size 0 ++ natToBE off CD.length) ++ RL ++ IDX ++ CD
-    let data := if fl.hasCrc then body ++ crcBytes body else body
+    (wRL : Bytes.WF RL) (wIDX : Bytes.WF IDX) (wCD : Bytes.WF CD) (data : Bytes)
+    (hdata0 : data = if fl.hasCrc then layoutBody M RL IDX CD b4 off size n nr ++ crcBytes (layoutBody M RL IDX CD b4 off size n nr)
+      else layoutBody M RL IDX CD b4 off size n nr) :
     ∃ h, deserializeBocHeader data = some h ∧ h.fl = fl ∧ h.cellsNum = n ∧ h.cellsData = CD ∧
-      h.rootList = (if fl.generic then uintsAt data (6 + 3 * size + off) size nr else [0]) := by
-  intro body data
+      h.rootList = (if fl.generic then uintsAt data (6 + 3 * size + off) size nr else [0]) ∧ Bytes.WF data := by
+  generalize hbd : layoutBody M RL IDX CD b4 off size n nr = body at hdata0
+  unfold layoutBody at hbd
   have hbody : body = M ++ b4 :: off :: (natToBE size n ++ natToBE size nr ++ natToBE size 0 ++ natToBE off CD.length ++ RL ++ IDX ++ CD) := by
-    simp [body, List.append_assoc]
+    rw [← hbd]; simp [List.append_assoc]
   have wbody : Bytes.WF body := by
     rw [hbody]
     refine wf_append hMwf ?_
@@ -1133,10 +1138,186 @@ theorem header_of_layout (M RL IDX CD : Bytes) (b4 off size n nr : Nat) (fl : Fl
         · rfl)
   have hdata : data = M ++ b4 :: off :: (natToBE fl.sizeBytes n ++ natToBE fl.sizeBytes nr ++ natToBE fl.sizeBytes 0 ++
       natToBE off CD.length ++ RL ++ IDX ++ CD) ++ (if fl.hasCrc then crcBytes body else []) := by
-    simp only [data]; rw [← hbody]; split <;> simp
+    rw [hdata0, ← hbody]; split <;> simp
   rw [← hdata] at hh hrl
-  refine ⟨_, hh, rfl, ?_, rfl, ?_⟩
+  refine ⟨_, hh, rfl, ?_, rfl, ?_, ?_⟩
   · simp [e1]
   · simp only [hrl, e2]
+  · rw [hdata0]
+    split
+    · refine wf_append wbody ?_
+      intro b hb
+      simp only [crcBytes, List.mem_map] at hb
+      obtain ⟨x, _, rfl⟩ := hb
+      exact x.isLt
+    · exact wbody
+
+/-! ### acceptance of every valid encoding -/
+
+theorem recOK_of_cellsOK (size : Nat) (cells : List SCell) (h : CellsOK cells) (hn : cells.length < 256 ^ size) :
+    ∀ c ∈ cells, RecOK size c := by
+  intro c hc
+  obtain ⟨pos, hpos, rfl⟩ := List.getElem_of_mem hc
+  obtain ⟨a, b, r, e, m, hh, h32, d⟩ := h pos hpos
+  exact ⟨a, b, fun x hx => by have := (r x hx).2; omega, e, m, hh, h32, d⟩
+
+theorem roots_lookup {α β : Type} (f : α → β) (all : List α) : ∀ (roots : List Nat), (∀ r ∈ roots, r < all.length) →
+    ∃ out, roots.mapM (fun r => all[r]?) = some out ∧ roots.mapM (fun r => (all.map f)[r]?) = some (out.map f) ∧
+      ∀ p ∈ out, p ∈ all := by
+  intro roots
+  induction roots with
+  | nil => intro _; exact ⟨[], by simp⟩
+  | cons r rs ih =>
+    intro h
+    obtain ⟨out, h1, h2, h3⟩ := ih (fun x hx => h x (List.mem_cons_of_mem _ hx))
+    have hr : r < all.length := h r List.mem_cons_self
+    refine ⟨all[r] :: out, ?_, ?_, ?_⟩
+    · rw [List.mapM_cons, List.getElem?_eq_getElem hr, h1]; rfl
+    · rw [List.mapM_cons, List.getElem?_map, List.getElem?_eq_getElem hr, h2]; rfl
+    · intro p hp
+      rcases List.mem_cons.mp hp with rfl | hp
+      · exact List.getElem_mem hr
+      · exact h3 p hp
+
+/-- the header of every valid encoding is accepted and yields the listing's data. -/
+theorem encode_header (fr : Freedoms) (cells : List SCell) (roots : List Nat) (hv : Valid fr cells roots) :
+    ∃ h, deserializeBocHeader (encodeWith fr cells roots) = some h ∧ h.fl.sizeBytes = fr.size ∧
+      h.cellsNum = cells.length ∧ h.cellsData = (records fr.size fr.storeHashes cells 0).flatten ∧ h.rootList = roots ∧
+      h.fl.hasCrc = fr.withCrc ∧ Bytes.WF (encodeWith fr cells roots) := by
+  obtain ⟨hcells, hs1, hs4, hn, hoff8, htot, hm⟩ := hv
+  have hrec := recOK_of_cellsOK fr.size cells hcells hn
+  have wCD : Bytes.WF (records fr.size fr.storeHashes cells 0).flatten := wf_flatten _ (records_wf _ _ _ _ hrec)
+  have htot' : ((records fr.size fr.storeHashes cells 0).flatten).length < 256 ^ fr.offBytes := by
+    simp only at htot; split at htot <;> omega
+  have hidxlen : ((indexEntries fr.withCache fr.cacheFlags (endOffsets (records fr.size fr.storeHashes cells 0) 0) 0).flatMap
+      (natToBE fr.offBytes)).length = cells.length * fr.offBytes := by
+    rw [flatMap_length_uniform _ _ (natToBE_length _), indexEntries_length, endOffsets_length, records_length]
+  have h256 : (256 : Nat) ≤ 256 ^ fr.size := by
+    calc 256 = 256 ^ 1 := by simp
+      _ ≤ 256 ^ fr.size := Nat.pow_le_pow_right (by omega) hs1
+  cases hmg : fr.magic with
+  | generic =>
+    rw [hmg] at hm
+    obtain ⟨hr0, hrlt, hrn, hci⟩ := hm
+    have hpos : 0 < cells.length := by
+      cases roots with
+      | nil => exact absurd rfl hr0
+      | cons r rs => have := hrlt r List.mem_cons_self; omega
+    have hoff := two_le_pow_off _ _ (records_flatten_ge fr.size fr.storeHashes cells 0 hpos) htot'
+    obtain ⟨h, h1, h2, h3, h4, h5, h6⟩ := header_of_layout [0xb5, 0xee, 0x9c, 0x72] (roots.flatMap (natToBE fr.size))
+      (if fr.hasIdx then (indexEntries fr.withCache fr.cacheFlags (endOffsets (records fr.size fr.storeHashes cells 0) 0) 0).flatMap
+        (natToBE fr.offBytes) else [])
+      (records fr.size fr.storeHashes cells 0).flatten
+      (128 * (if fr.hasIdx then 1 else 0) + 64 * (if fr.hasCrc then 1 else 0) + 32 * (if fr.hasCacheBits then 1 else 0) + fr.size)
+      fr.offBytes fr.size cells.length roots.length
+      { generic := true, hasIdx := fr.hasIdx, hasCrc := fr.hasCrc, hasCacheBits := fr.hasCacheBits, flags := 0, sizeBytes := fr.size }
+      rfl (by decide) (fun r => readFlags_generic _ _ _ _ (by omega) r) rfl hs1 hn hrn htot' hoff
+      (by split <;> split <;> split <;> omega) (by omega)
+      (by simp [flatMap_length_uniform _ _ (natToBE_length fr.size)]) (by simp)
+      (by cases fr.hasIdx <;> simp [hidxlen])
+      (wf_flatMap_be' _ _) (by split; exact wf_flatMap_be' _ _; intro b hb; cases hb) wCD
+      (encodeWith fr cells roots)
+      (by simp only [encodeWith, encodeBody, Freedoms.withCrc, hmg, Magic.bytes, layoutBody])
+    refine ⟨h, h1, by rw [h2], h3, h4, ?_, by rw [h2]; simp [Freedoms.withCrc, hmg], h6⟩
+    rw [h5]
+    simp only [if_true]
+    -- the root list is read back
+    have hbody : ∃ pre post0, encodeBody fr cells roots = pre ++ roots.flatMap (natToBE fr.size) ++ post0 ∧
+        pre.length = 6 + 3 * fr.size + fr.offBytes := by
+      refine ⟨[0xb5, 0xee, 0x9c, 0x72] ++ [128 * (if fr.hasIdx then 1 else 0) + 64 * (if fr.hasCrc then 1 else 0) + 32 * (if fr.hasCacheBits then 1 else 0) + fr.size]
+          ++ [fr.offBytes] ++ (natToBE fr.size cells.length ++ natToBE fr.size roots.length ++ natToBE fr.size 0 ++
+            natToBE fr.offBytes (records fr.size fr.storeHashes cells 0).flatten.length),
+        (if fr.hasIdx then (indexEntries fr.withCache fr.cacheFlags (endOffsets (records fr.size fr.storeHashes cells 0) 0) 0).flatMap
+            (natToBE fr.offBytes) else []) ++ (records fr.size fr.storeHashes cells 0).flatten, ?_, ?_⟩
+      · simp only [encodeBody, hmg, Magic.bytes, List.append_assoc]
+      · simp [natToBE_length]; omega
+    obtain ⟨pre, post0, hb1, hb2⟩ := hbody
+    have hform : ∃ post, encodeWith fr cells roots = pre ++ roots.flatMap (natToBE fr.size) ++ post := by
+      refine ⟨if fr.withCrc then post0 ++ crcBytes (encodeBody fr cells roots) else post0, ?_⟩
+      simp only [encodeWith]
+      split
+      · generalize crcBytes (encodeBody fr cells roots) = C
+        rw [hb1]; simp only [List.append_assoc]
+      · exact hb1
+    obtain ⟨post, e1⟩ := hform
+    have e2 := hb2
+    rw [e1]
+    exact uintsAt_flatMap fr.size roots (fun r hr => by have := hrlt r hr; omega) pre post _ e2.symm
+  | idx =>
+    rw [hmg] at hm
+    obtain ⟨hr0, hpos⟩ := hm
+    subst hr0
+    have hoff := two_le_pow_off _ _ (records_flatten_ge fr.size fr.storeHashes cells 0 hpos) htot'
+    obtain ⟨h, h1, h2, h3, h4, h5, h6⟩ := header_of_layout [0x68, 0xff, 0x65, 0xf3] []
+      ((indexEntries fr.withCache fr.cacheFlags (endOffsets (records fr.size fr.storeHashes cells 0) 0) 0).flatMap (natToBE fr.offBytes))
+      (records fr.size fr.storeHashes cells 0).flatten fr.size fr.offBytes fr.size cells.length 1
+      { generic := false, hasIdx := true, hasCrc := false, hasCacheBits := false, flags := 0, sizeBytes := fr.size }
+      rfl (by decide) (fun r => readFlags_idx _ r) rfl hs1 hn (by omega) htot' hoff (by omega) (by omega)
+      (by simp) (by simp) (by simp [hidxlen])
+      (by intro b hb; cases hb) (wf_flatMap_be' _ _) wCD
+      (encodeWith fr cells [0])
+      (by simp [encodeWith, encodeBody, Freedoms.withCrc, hmg, Magic.bytes, layoutBody, List.append_assoc])
+    refine ⟨h, h1, by rw [h2], h3, h4, ?_, by rw [h2]; simp [Freedoms.withCrc, hmg], h6⟩
+    rw [h5]; simp
+  | idxCrc =>
+    rw [hmg] at hm
+    obtain ⟨hr0, hpos⟩ := hm
+    subst hr0
+    have hoff := two_le_pow_off _ _ (records_flatten_ge fr.size fr.storeHashes cells 0 hpos) htot'
+    obtain ⟨h, h1, h2, h3, h4, h5, h6⟩ := header_of_layout [0xac, 0xc3, 0xa7, 0x28] []
+      ((indexEntries fr.withCache fr.cacheFlags (endOffsets (records fr.size fr.storeHashes cells 0) 0) 0).flatMap (natToBE fr.offBytes))
+      (records fr.size fr.storeHashes cells 0).flatten fr.size fr.offBytes fr.size cells.length 1
+      { generic := false, hasIdx := true, hasCrc := true, hasCacheBits := false, flags := 0, sizeBytes := fr.size }
+      rfl (by decide) (fun r => readFlags_idxCrc _ r) rfl hs1 hn (by omega) htot' hoff (by omega) (by omega)
+      (by simp) (by simp) (by simp [hidxlen])
+      (by intro b hb; cases hb) (wf_flatMap_be' _ _) wCD
+      (encodeWith fr cells [0])
+      (by simp [encodeWith, encodeBody, Freedoms.withCrc, hmg, Magic.bytes, layoutBody, List.append_assoc])
+    refine ⟨h, h1, by rw [h2], h3, h4, ?_, by rw [h2]; simp [Freedoms.withCrc, hmg], h6⟩
+    rw [h5]; simp
+
+theorem denoteFrom_length : ∀ (cs : List SCell) (base : Nat) (trees : List Cell),
+    denoteFrom cs base = some trees → trees.length = cs.length := by
+  intro cs; induction cs with
+  | nil => intro base trees h; simp [denoteFrom] at h; subst h; rfl
+  | cons c cs ih =>
+    intro base trees h
+    simp only [denoteFrom] at h
+    cases hl : denoteFrom cs (base + 1) with
+    | none => simp [hl] at h
+    | some lt =>
+      simp only [hl, Option.bind_some] at h
+      cases hk : c.refs.mapM (fun r => if r ≤ base then none else lt[r - base - 1]?) with
+      | none => simp [hk] at h
+      | some kids =>
+        simp only [hk, Option.map_some, Option.some.injEq] at h
+        subst h; simp [ih _ _ hl]
+
+/-- ACCEPTANCE: every valid encoding parses to exactly the denoted roots. -/
+theorem encode_accepts (H : Bytes → Bytes) (fr : Freedoms) (cells : List SCell) (roots : List Nat)
+    (hv : Valid fr cells roots) (trees : List Cell) (hden : denote cells = some trees)
+    (hcon : ∀ t ∈ trees, (Cell.info H t).isSome) :
+    ∃ out, fromBoc H (encodeWith fr cells roots) = some out ∧
+      roots.mapM (fun r => trees[r]?) = some (out.map (·.1)) ∧ ∀ p ∈ out, Cell.info H p.1 = some p.2 := by
+  obtain ⟨h, h1, h2, h3, h4, h5, -, -⟩ := encode_header fr cells roots hv
+  have hrec := recOK_of_cellsOK fr.size cells hv.1 hv.2.2.2.1
+  have hcells := readCells_records fr.size fr.storeHashes cells 0 [] hrec
+  rw [List.append_nil] at hcells
+  obtain ⟨all, r1, r2, r3⟩ := rebuild_denote H cells 0 trees hden hcon
+  have hlen : all.length = cells.length := by
+    have := denoteFrom_length cells 0 trees hden
+    rw [← r2] at this; simpa using this
+  have hroots : ∀ r ∈ roots, r < all.length := by
+    rw [hlen]
+    have hm := hv.2.2.2.2.2.2
+    cases hmg : fr.magic with
+    | generic => rw [hmg] at hm; exact hm.2.1
+    | idx => rw [hmg] at hm; intro r hr; rw [hm.1] at hr; simp at hr; omega
+    | idxCrc => rw [hmg] at hm; intro r hr; rw [hm.1] at hr; simp at hr; omega
+  obtain ⟨out, o1, o2, o3⟩ := roots_lookup (·.1) all roots hroots
+  refine ⟨out, ?_, ?_, fun p hp => r3 p (o3 p hp)⟩
+  · unfold fromBoc deserialize
+    simp only [h1, Option.bind_some, h2, h3, h4, hcells, r1, h5, o1]
+  · rw [← r2]; exact o2
 
 end TonVerif.Proofs.BocParse
